@@ -37,7 +37,7 @@ pub const ENVS: &[Env] = &[
 
 pub const MAIN: &str = "main";
 
-const DEP_OK: &str = "/// A dependency.\nstruct Ext { a @ 1 = u8; }\nenum ExtE { A @ 1; }\nconst N = u32(3);\nconst S = string(\"s\");\nservice ExtSvc { uuid = 5c7d1a59-8ba1-4d0a-9b5e-2f0c2d1e7a01; version = 1; }\nnewtype ExtN = u8;\n";
+const DEP_OK: &str = "/// A dependency.\nstruct Ext { a @ 1 = u8; }\nenum ExtE { A @ 1; }\nconst N = u32(3);\nconst S = string(\"s\");\nservice ExtSvc { uuid = 5c7d1a59-8ba1-4d0a-9b5e-2f0c2d1e7a01; version = 1; }\nnewtype ExtN = u8;\nnewtype ExtChain = ExtN;\n";
 const OTHER_OK: &str = "struct Ext { b @ 2 = string; }\nconst M = u8(2);\nservice OtherSvc { uuid = 5c7d1a59-8ba1-4d0a-9b5e-2f0c2d1e7a01; version = 2; }\n";
 
 fn io_err() -> io::Error {
